@@ -24,7 +24,8 @@ RULE = ("Model-based histories on real stacks (virtual LAN + clock): two client 
         "are queued or in flight; when the servers have answered everything, every IOCB completed exactly once with the answer "
         "to its own request, no request was served twice and no queue is left. Non-trivial: >= 2 simultaneously live requests to one "
         "peer, or an injected foreign/late/duplicate reply. Distinct by the operation list."
-        " Also: aborts / segment-acks with the client role flag on live IDs; IOCB histories with chained requests, unconfirmed traffic beside them and aborts of finished IOCBs; segmented requests.")
+        " Also: aborts / segment-acks with the client role flag on live IDs; IOCB histories with chained requests, unconfirmed traffic beside them and aborts of finished IOCBs; segmented requests."
+        " The serving application answering everything it holds at once; on the wire a client is sent only the segments its own acks allow (histories without injected frames). One reduced copy of a generated shard runs with the library's debug tracing switched on (label tracing-on).")
 ASSUMPTIONS = [
     "client APDU timeout (1 s) is shorter than the servers' application timeout (1000 s) so that 'while the original is still being processed' is observable",
     "a request that reuses a (client, invoke ID) pair the server is still processing is a duplicate by design; the model excuses it from the seen-once clause",
